@@ -94,6 +94,11 @@ def LISTOF(s: Sort, n: int) -> Sort:
     return Sort("listof", s, n)
 
 
+def ITER(s: Sort, n: int) -> Sort:
+    """an iterator that will deliver exactly n more items of sort s"""
+    return Sort("iter", s, n)
+
+
 def ARR(dom: Sort, rng: Sort) -> Sort:
     return Sort("arr", dom, rng)
 
@@ -144,6 +149,8 @@ class Contract:
     lemma_src: str = ""
     cover: Callable[[Any], dict[str, Any]] | None = None
     touches: list[str] = field(default_factory=list)   # message parameters the callee writes into (presence propagates)
+    case_split: Callable[[Any], dict[str, Any]] | None = None   # call sites fork on these (exhaustive) cases: keeps queries small
+    shards: int = 1       # discharge this function's obligations in that many worker processes
 
 
 class Registry:
@@ -197,6 +204,8 @@ def contract(key: str, serves: list[str] | None = None, trusted: bool = False, i
             tags=dict(cls.__dict__.get("tags", {})),
             cover=_fn(cls, "cover"),
             touches=list(cls.__dict__.get("touches", [])),
+            case_split=_fn(cls, "case_split"),
+            shards=int(cls.__dict__.get("shards", 1)),
         )
         c.virtual = bool(cls.__dict__.get("virtual", False))
         REGISTRY.add(c)
